@@ -26,10 +26,11 @@ BASE_RUN = 1000000000
 
 
 # ---------------------------------------------------------------- rendering
-def render_do(deps, ifc, always, stamp, out, payload, cat, ex):
+def render_do(deps, ifc, always, stamp, out, payload, cat, ex, tol=False):
     L = ['printf \'run:%s:%s:%s:%s\\n\' "$1" "$1" "$2" "$3" >> "$VERIF_TRACE"']
     if deps:
-        L.append("redo-ifchange " + " ".join(deps))
+        # tol: the script carries on when its dependencies cannot be built
+        L.append("redo-ifchange " + " ".join(deps) + (" || true" if tol else ""))
     if ifc:
         L.append("redo-ifcreate " + " ".join(ifc))
     if always:
@@ -146,7 +147,7 @@ class Project:
             self.write(t[1], "".join("%s\n" % x for x in lst(t[2])))
             return "edit", None
         if t[0] == "D":
-            self.write(t[1], render_do(lst(t[2]), lst(t[3]), t[4] == "1", t[5] == "1", t[6], int(t[7]), t[8] == "1", int(t[9])))
+            self.write(t[1], render_do(lst(t[2]), lst(t[3]), t[4] == "1", t[5] == "1", t[6], int(t[7]), t[8] == "1", int(t[9]), len(t) > 10 and t[10] == "1"))
             self.dofiles.add(t[1])
             return "edit", None
         if t[0] == "R":
